@@ -6,6 +6,25 @@ from .trace import F
 UNITS = ["kg/(m2*h*kPa)", "SI", "GPU"]
 
 
+def unknown_unit(rng):
+    """a unit name the library does not know: another convention, a mis-spelling, a FRAGMENT of a known name, other case, padding"""
+    u = rng.random()
+    if u < 0.35:
+        return rng.choice(["kg/(m2 h kPa)", "Barrer", "gpu", "si", "furlong/fortnight"])
+    k = rng.choice(UNITS)
+    if u < 0.7:
+        i = rng.randrange(0, len(k))
+        j = rng.randrange(i, len(k) + 1)
+        frag = k[i:j]
+        return frag if frag not in UNITS else frag + "s"            # "", "kg", "kPa", "m2", "PU", "S", "G" ...
+    if u < 0.8:
+        return k + rng.choice([" ", "s", "/"]) if rng.random() < 0.5 else " " + k
+    if u < 0.9:
+        alt = k.swapcase()
+        return alt if alt not in UNITS else k.lower() + "_"
+    return rng.choice(UNITS) + rng.choice(UNITS)                     # two names run together
+
+
 def pstate(p):
     return {"value": F(p.value), "units": p.units}
 
@@ -29,13 +48,13 @@ def record(tw, rng, n_chains, stats):
         u0 = gen.tstr(rng, rng.choice(UNITS))
         if rng.random() < 0.08:
             # the Permeance itself is stated in a unit the library does not know (mis-spelt, another convention): converting it must raise
-            u0 = rng.choice(["kg/(m2 h kPa)", "Barrer", "gpu", "si", "furlong/fortnight"])
+            u0 = unknown_unit(rng)
         a = pv.Permeance(value=v, units=u0)
         b = pv.Permeance(value=k * v, units=u0)
         tr = tw.new()
         tr.append({"ev": "New", "M": M, "k": F(k), "v_in": F(v), "a": pstate(a), "b": pstate(b)})
         for _ in range(rng.randrange(2, 5)):
-            to = gen.tstr(rng, rng.choice(UNITS + UNITS + ["furlong/fortnight"]))       # also as a string made at run time
+            to = gen.tstr(rng, rng.choice(UNITS + UNITS + [unknown_unit(rng)]))       # also as a string made at run time
             has = rng.random() < 0.8
             try:
                 a2 = a.convert(to, comp if has else None)
@@ -70,6 +89,24 @@ def record(tw, rng, n_chains, stats):
         except Exception as e:  # noqa: BLE001
             tw.add([{"ev": "Cross", "v": F(v), "from": u_from, "to": u_to, "MA": float(ca.molecular_weight), "MB": float(cb.molecular_weight),
                      "mid": {"value": 0.0, "units": ""}, "end": {"value": 0.0, "units": ""}, "raised": True}])
+    # ONE Permeance object converted to the same target twice, with two different components: each answer uses its own component
+    for _ in range(max(8, n_chains // 20)):
+        ca, cb = rng.sample(comps, 2) if rng.random() < 0.6 else (gen.synthetic_component(rng, "SA", mass=gen.logu(rng, 1.0, 1000.0)),
+                                                                  gen.synthetic_component(rng, "SB", mass=gen.logu(rng, 1.0, 1000.0)))
+        v = gen.logu(rng, 1e-12, 1e6)
+        u_from, u_to = rng.choice([("SI", UNITS[0]), ("GPU", UNITS[0]), (UNITS[0], "SI"), (UNITS[0], "GPU")])
+        u_from, u_to = gen.tstr(rng, u_from), gen.tstr(rng, u_to)
+        obj = pv.Permeance(value=v, units=u_from)
+        try:
+            first = obj.convert(u_to, ca)
+            second = obj.convert(u_to, cb)
+            again = obj.convert(u_to, ca)
+            tw.add([{"ev": "Twice", "v": F(v), "from": u_from, "to": u_to, "MA": float(ca.molecular_weight), "MB": float(cb.molecular_weight),
+                     "first": pstate(first), "second": pstate(second), "again": pstate(again), "obj": pstate(obj), "raised": False}])
+        except Exception as e:  # noqa: BLE001
+            z = {"value": 0.0, "units": ""}
+            tw.add([{"ev": "Twice", "v": F(v), "from": u_from, "to": u_to, "MA": float(ca.molecular_weight), "MB": float(cb.molecular_weight),
+                     "first": z, "second": z, "again": z, "obj": z, "raised": True}])
     # the defining factors through the value 1
     for comp in comps + [gen.synthetic_component(rng, "S", mass=gen.logu(rng, 1.0, 1000.0)) for _ in range(8)]:
         one_kg = pv.Permeance(value=1.0, units=UNITS[0]).convert("SI", comp)
